@@ -492,6 +492,13 @@ def oracle(case, obs):
         errs = [e for e in evs if e[0] == "err"]
         if errs:
             out.append(("C01", "op %d %r: exception %s escaped" % (opi, op, errs[0][1])))
+            # no generated history asks for anything illegal (every name is a state, every argument well-formed): an operation
+            # that raises did not do what any of the clauses says it does
+            out.append(("C02", "op %d %r: exception %s escaped instead of the iteration running the state the timing rules select" % (opi, op, errs[0][1])))
+            out.append(("C04", "op %d %r: exception %s escaped: the operation did not complete (a stop must leave is_executing False "
+                        "and current_state empty, an iteration must leave current_state naming the next state)" % (opi, op, errs[0][1])))
+            if kind in ("aenable", "aiter", "adisable"):
+                out.append(("C13", "op %d %r: exception %s escaped from the autonomous lifecycle call" % (opi, op, errs[0][1])))
             if errs[0][1] == "TypeError":
                 out.append(("C03", "op %d %r: TypeError escaped: a state function could not be called with the parameters it declares" % (opi, op)))
             break
